@@ -7,11 +7,29 @@ import (
 	"git.sr.ht/~rockorager/vaxis"
 	"git.sr.ht/~rockorager/vaxis/vxfw"
 	"git.sr.ht/~rockorager/vaxis/zzverif"
+	"github.com/rivo/uniseg"
 )
 
 var verifWrapTexts = []string{
 	"", "a", "ab cd", "abc def gh", "a-b c", "ab\ncd", "ab \n cd", "abcdefgh", "a  b", " ab", "ab ",
 	"世界 ab", "ab世界cd", "é éx", "a b c d e f", "ab\n\ncd", "abcd ef", "x\n",
+}
+
+// verifWrapAlphabet: letters, a space, a hyphen, a newline, a wide and a combining grapheme.
+var verifWrapAlphabet = []string{"a", "b", " ", "-", "\n", "世", "e\u0301"}
+
+// verifWrapText picks the text: with parameter len == 0 one of the listed texts, otherwise
+// every text of exactly len graphemes over the alphabet (one free choice per position).
+func verifWrapText() string {
+	n := zzverif.Param("len")
+	if n == 0 {
+		return verifWrapTexts[zzverif.Choose("text", len(verifWrapTexts))]
+	}
+	text := ""
+	for i := 0; i < n; i++ {
+		text += verifWrapAlphabet[zzverif.Choose("g", len(verifWrapAlphabet))]
+	}
+	return text
 }
 
 func verifIsSpaceG(g string) bool {
@@ -68,15 +86,39 @@ func verifWrapCheck(text string, lines []string, width int, tag string) {
 	if !same {
 		return
 	}
-	// (3) a run of letters that fits on a line of its own is not split; (4) a hard break ends
-	// the line: graphemes on either side of a newline are on different lines
+	// (3) a run of (narrow) letters that fits on a line of its own is not split; (4) a hard
+	// break ends the line: graphemes on either side of a newline are on different lines.
+	// For (3) the runs are classified by the unbreakable line segment (UAX #14, computed by
+	// uniseg on the whole text) that contains them: a split run whose whole segment fits is
+	// asserted separately from one whose segment (letters glued to hyphens ...) is wider
+	// than the line and has to be broken somewhere (known finding C16-long-segment-run-split).
+	var segW []int // per non-space grapheme: width of its segment without trailing space
+	{
+		rest, state, seg := text, -1, ""
+		for len(rest) > 0 {
+			seg, rest, _, state = uniseg.FirstLineSegmentInString(rest, state)
+			w := 0
+			for _, c := range chars(strings.TrimRightFunc(seg, unicode.IsSpace)) {
+				w += c.Width
+			}
+			for _, c := range chars(seg) {
+				if !verifIsSpaceG(c.Grapheme) {
+					segW = append(segW, w)
+				}
+			}
+		}
+	}
 	idx := 0
 	runStart, runW := -1, 0
-	unsplit, hard := true, true
+	splitInFittingSeg, splitInLongSeg, hard := false, false, true
 	prevIdxBeforeBreak := -1
 	flush := func(end int) {
-		if runStart >= 0 && runW <= width {
-			unsplit = unsplit && lineOf[runStart] == lineOf[end-1]
+		if runStart >= 0 && runW <= width && lineOf[runStart] != lineOf[end-1] {
+			if runStart < len(segW) && segW[runStart] > width {
+				splitInLongSeg = true
+			} else {
+				splitInFittingSeg = true
+			}
 		}
 		runStart, runW = -1, 0
 	}
@@ -94,7 +136,9 @@ func verifWrapCheck(text string, lines []string, width int, tag string) {
 			hard = hard && lineOf[prevIdxBeforeBreak] != lineOf[idx]
 			prevIdxBeforeBreak = -1
 		}
-		if verifIsLetterG(c.Grapheme) {
+		// A wide (ideographic) grapheme is a line-break opportunity on both sides (UAX #14):
+		// it is not part of a "run of letters".
+		if verifIsLetterG(c.Grapheme) && c.Width == 1 {
 			if runStart < 0 {
 				runStart = idx
 			}
@@ -105,14 +149,16 @@ func verifWrapCheck(text string, lines []string, width int, tag string) {
 		idx++
 	}
 	flush(idx)
-	zzverif.Assert(unsplit, tag+":fitting-letter-runs-not-split")
+	zzverif.Assert(!splitInFittingSeg, tag+":fitting-words-not-split")
+	zzverif.Known("C16-long-segment-run-split", splitInLongSeg)
+	zzverif.Assert(!splitInLongSeg, tag+":fitting-letter-runs-not-split")
 	zzverif.Assert(hard, tag+":hard-break-ends-the-line")
 }
 
 // VerifC16Text: the plain soft-wrap scanner on a text from a list with a free width: it
 // terminates and its lines satisfy the wrapping contract; Text.Draw draws one row per line.
 func VerifC16Text() {
-	text := verifWrapTexts[zzverif.Choose("text", len(verifWrapTexts))]
+	text := verifWrapText()
 	width := zzverif.Uint16("width")
 	zzverif.Assume(width >= 1)
 	ctx := vxfw.DrawContext{Max: vxfw.Size{Width: width, Height: 40}, Characters: vaxis.Characters}
@@ -124,5 +170,56 @@ func VerifC16Text() {
 		zzverif.Assert(n < 4*len(text)+4, "scanner-terminates")
 	}
 	verifWrapCheck(text, lines, int(width), "text")
+	// the widget draws exactly the emitted lines, one per row
+	surf, err := (&Text{Content: text, Softwrap: true}).Draw(ctx)
+	zzverif.Assert(err == nil, "text:draw-succeeds")
+	var lc [][]vaxis.Character
+	for _, l := range lines {
+		lc = append(lc, vaxis.Characters(l))
+	}
+	verifDrawnRows(surf, lc, int(width), 40, "text")
 	zzverif.Reach("end")
+}
+
+// verifDrawnRows: the surface holds exactly the given lines, one per row from the top, each
+// from column 0 (cells beyond the surface width are clipped), and is as high as the number
+// of lines (at most maxH) and as wide as the widest line (at most maxW).
+func verifDrawnRows(s vxfw.Surface, lines [][]vaxis.Character, maxW, maxH int, tag string) {
+	h := len(lines)
+	if h > maxH {
+		h = maxH
+	}
+	zzverif.Assert(int(s.Size.Height) == h, tag+":surface-height-is-number-of-lines")
+	wantW := 0
+	for i, l := range lines {
+		if i >= h {
+			break
+		}
+		w := 0
+		for _, c := range l {
+			w += c.Width
+		}
+		if w > wantW {
+			wantW = w
+		}
+	}
+	if wantW > maxW {
+		wantW = maxW
+	}
+	zzverif.Assert(int(s.Size.Width) == wantW, tag+":surface-width-is-widest-line")
+	if int(s.Size.Height) != h || int(s.Size.Width) != wantW || len(s.Buffer) != h*wantW {
+		return
+	}
+	rowsOK := true
+	for r := 0; r < h; r++ {
+		col := 0
+		for _, c := range lines[r] {
+			if col >= wantW {
+				break
+			}
+			rowsOK = rowsOK && s.Buffer[r*wantW+col].Grapheme == c.Grapheme
+			col += c.Width
+		}
+	}
+	zzverif.Assert(rowsOK, tag+":row-shows-its-line")
 }
